@@ -298,8 +298,8 @@ func c10Run(cs c10Case) []c10Issue {
 			bad("recovered-response", "panic at %s after output: body %q does not end with what the recover handler wrote %q", pos, r.Body, wantBody)
 		}
 	}
-	for _, is := range w.led.report(true) {
-		bad("ledger", "%s", is.Msg)
+	for _, m := range w.led.report(true) {
+		bad("ledger", "%s", m)
 	}
 	// the probe set must be answered exactly as by a container that never saw a panic
 	restful.SetCompressorProvider(fresh.led)
